@@ -286,6 +286,13 @@ impl Module {
         mut lhs: &'a CardIndex,
         mut rhs: &'a CardIndex,
     ) -> Result<(), SwapError> {
+        if lhs == rhs {
+            // nothing to swap, but the index still has to be valid
+            return self
+                .get_card(lhs)
+                .map(|_| ())
+                .map_err(|err| SwapError::FetchError(lhs.clone(), err));
+        }
         if lhs < rhs {
             std::mem::swap(&mut lhs, &mut rhs);
         }
